@@ -19,6 +19,7 @@ type Env struct {
 	vars  map[string]Val
 	pkg   *types.Package
 	held  func(st *State, lockAddr string) string
+	pkgName string // name of the package whose contract file the expression comes from (spec fns / ghost globals resolve here even when that package is not loaded)
 	recFuel map[string]string // rec spec fn name -> fuel term to use for calls inside its own definition
 	bound bool // evaluating under SMT binders (quantifier body, spec fn definition): nothing may be hoisted into global constants
 }
@@ -285,7 +286,7 @@ func (env *Env) evalIdent(name string, hint types.Type) Val {
 		return v
 	}
 	// ghost global
-	if g := vc.prog.ghostGlobal(name, env.pkg); g != nil {
+	if g := vc.prog.ghostGlobalIn(name, env.specPkg()); g != nil {
 		t := env.resolveType(g.Type)
 		return vc.readGlobal(env.st, "G:ghost."+g.Pkg+"."+name, t)
 	}
@@ -927,7 +928,7 @@ func (env *Env) evalCall(x *ECall, hint types.Type) Val {
 			}
 		}
 		// spec function
-		if sf := vc.prog.specFn(id.Name, env.pkg); sf != nil {
+		if sf := vc.prog.specFnIn(id.Name, env.specPkg()); sf != nil {
 			return env.callSpec(sf, x.Args)
 		}
 		// named type conversion in package
@@ -982,9 +983,9 @@ func (env *Env) callSpec(sf *SpecFn, args []Expr) Val {
 		efail("spec fn %s expects %d args", sf.Name, len(sf.Params))
 	}
 	pkg := vc.prog.typesPkgByName(sf.Pkg)
-	senv := &Env{vc: vc, pkg: pkg}
+	senv := &Env{vc: vc, pkg: pkg, pkgName: sf.Pkg}
 	if sf.Pred {
-		benv := &Env{vc: vc, st: env.st, old: env.old, entry: env.entry, vars: map[string]Val{}, pkg: pkg, bound: env.bound}
+		benv := &Env{vc: vc, st: env.st, old: env.old, entry: env.entry, vars: map[string]Val{}, pkg: pkg, pkgName: sf.Pkg, bound: env.bound}
 		for i, p := range sf.Params {
 			pt := senv.resolveType(p.Type)
 			v := env.eval(args[i], pt)
@@ -1027,7 +1028,7 @@ func (vc *VC) declareSpecFn(sf *SpecFn) string {
 		return name
 	}
 	pkg := vc.prog.typesPkgByName(sf.Pkg)
-	env := &Env{vc: vc, pkg: pkg, vars: map[string]Val{}, st: NewState(), bound: true}
+	env := &Env{vc: vc, pkg: pkg, vars: map[string]Val{}, st: NewState(), bound: true, pkgName: sf.Pkg}
 	var binders, sorts []string
 	for _, p := range sf.Params {
 		t := env.resolveType(p.Type)
@@ -1139,4 +1140,15 @@ func (vc *VC) heldTerm(st *State, addr string) string {
 func (vc *VC) strEqExt(a, b string) string {
 	i := vc.idxSort()
 	return "(and (= (gs.len " + a + ") (gs.len " + b + ")) (forall ((k " + i + ")) (=> (and " + vc.ile(vc.idx(0), "k") + " " + vc.ilt("k", "(gs.len "+a+")") + ") (= (gs.at " + a + " k) (gs.at " + b + " k)))))"
+}
+
+// specPkg: the package name in which unqualified spec functions and ghost globals are looked up.
+func (env *Env) specPkg() string {
+	if env.pkgName != "" {
+		return env.pkgName
+	}
+	if env.pkg != nil {
+		return env.pkg.Name()
+	}
+	return ""
 }
